@@ -31,7 +31,7 @@ def shards(tier):
 
 def gates(c, tier):
     need = ["call:partial-pending-completes>=2-leaves-tail", "call:empty-residue", "cut:inside-header", "chunk:empty", "role:client", "role:server",
-            "chunk:bytearray-overwritten", "chunk:memoryview", "chunk:memoryview-slice-of-larger-buffer", "partition:single-exhaustive", "partition:pairs-exhaustive", "partition:bytewise",
+            "chunk:bytearray-overwritten", "chunk:memoryview", "chunk:memoryview-slice-of-larger-buffer", "chunk:memoryview-of-signed-or-char-items", "partition:single-exhaustive", "partition:pairs-exhaustive", "partition:bytewise",
             "probe:compared", "big-entry", "stream:alternative-length-forms", "bystander-session-checked"]
     return [f"never observed {k}" for k in need if c.get(k, 0) == 0]
 
@@ -166,6 +166,11 @@ def as_chunk(r, b: bytes, mode: int):
         return ba, scribble
     if mode == 2:
         return memoryview(ba), scribble
+    if mode in (4, 5) and len(ba):
+        # the same octets as a view of signed-char / char items (array('b'), ctypes buffers, cast views)
+        return memoryview(ba).cast("b" if mode == 4 else "c"), scribble
+    if mode in (4, 5):
+        return memoryview(ba), scribble
     # a slice of a larger receive buffer that also holds unrelated bytes before and after (recv_into style)
     big = bytearray(b"\x30\x05\x02\x01\x07\x42\x00") + ba + bytearray(b"\x30\x05\x02\x01\x09\x42\x00stale")
 
@@ -200,7 +205,7 @@ def run_case(sc, stream: bytes, cuts, chunk_modes_seed, baseline=None):
     delivered = b""
     pending_before = 0
     for ch in C.split(stream, cuts):
-        mode = r.randrange(4)
+        mode = r.randrange(6)
         obj, scribble = as_chunk(r, ch, mode)
         if len(ch) == 0:
             obs["chunk:empty"] = obs.get("chunk:empty", 0) + 1
@@ -215,7 +220,7 @@ def run_case(sc, stream: bytes, cuts, chunk_modes_seed, baseline=None):
             return out, obs
         if scribble:
             scribble()
-            obs["chunk:bytearray-overwritten" if mode == 1 else "chunk:memoryview" if mode == 2 else "chunk:memoryview-slice-of-larger-buffer"] = 1
+            obs["chunk:bytearray-overwritten" if mode == 1 else "chunk:memoryview" if mode == 2 else "chunk:memoryview-of-signed-or-char-items" if mode in (4, 5) else "chunk:memoryview-slice-of-larger-buffer"] = 1
         kept_lists.append((res, len(res), [id(m) for m in res]))
         for m in res:
             returned.append(m)
